@@ -1,2 +1,32 @@
-(** C11 — placeholder until the refinement theorem is in place. *)
-From GoSh Require Import Base.Bytes Arith.ASyntax Arith.AEval.
+(** C11 — Arithmetic evaluation follows C expression semantics on 64-bit signed integers. *)
+From GoSh Require Import Base.Bytes Base.Outcome Store.Env Store.EnvSpec Arith.ASyntax Arith.AEval Arith.AProofs.
+
+(** Full statement of the property on the model: on every C-defined expression on which eager
+    evaluation of the operands of && || ?: is unobservable ([eager_safe], the complement of known
+    finding F11) and whose variables hold numbers, the rule-action evaluator computes C's value and
+    C's store; it fails exactly when C's evaluation fails.  (Statement kept in full; see the
+    theorems below for what is proved so far.) *)
+Definition C11_refines_C_statement : Prop :=
+  forall a e, c_defined a = true -> eager_safe a = true -> numeric_store e a = true ->
+    match eval_top_i e a, eval_c e a with
+    | (e1, Ok n1), (e2, Ok n2) => n1 = n2 /\ forall k, abs e1 k = abs e2 k
+    | (_, Err _), (_, Err _) => True
+    | _, _ => False
+    end.
+
+(** Proved (every expression, every store): assignments and increments update exactly the named
+    variables -- evaluation changes the store at most at the names under =, op=, ++, -- and never
+    touches Args / Opts. *)
+Theorem C11_partial_only_named_variables_change :
+  forall a e, same_except (mods a) e (fst (eval_i e a)).
+Proof. exact eval_i_frame. Qed.
+Print Assumptions C11_partial_only_named_variables_change.
+
+Local Open Scope N_scope.
+(** Non-vacuity / sanity: 7 - 2 * 3, x = y = 4 with y read back, and a wrap-around. *)
+Example C11_witness :
+  let e0 := mkEnv [[115; 104]] 0 0%Z [] in
+  snd (eval_model e0 [55; 45; 50; 42; 51]) = Ok 1%Z /\
+  snd (eval_model e0 [120; 61; 121; 61; 52]) = Ok 4%Z /\
+  snd (eval_model e0 [57;50;50;51;51;55;50;48;51;54;56;53;52;55;55;53;56;48;55;43;49]) = Ok (-9223372036854775808)%Z.
+Proof. vm_compute. repeat split. Qed.
